@@ -6,7 +6,7 @@ from lib import Result, model_call, run_sharded, e_fmt, e_list, Reader, outcome
 
 RULE = ('array shapes up to 3x3 and lengths up to 8, operand formats with n_word<=12, element values from the extremes of the format (all most-negative, all most-positive, alternating) and random codes; '
         'sum, cumsum, prod, cumprod, dot / matmul (values only), trace, max, min, sort, clip, transpose, diagonal through the NumPy function and the equivalent method, axis None or any valid axis; trace and diagonal also with offset in {-2, -1, 1, 2}. '
-        'The implementation result is compared with the exact result on the element values (Python integers / rationals), with the documented growth rule, with "no overflow flag", with isinstance(result, Fxp), and with the model (sum, cumsum, prod, dot, trace). '
+        'The implementation result is compared with the exact result on the element values (Python integers / rationals), with the documented growth rule, with "no overflow flag", with isinstance(result, Fxp), and with the model (sum, cumsum, prod, cumprod, dot, trace). '
         'Non-trivial = at least two elements and a non-zero result; distinct by full input.')
 ASSUMPTIONS = ['the NumPy dispatch glue (__array_function__, method wrappers) is exercised by running both call routes; it has no Gallina counterpart', 'matmul goes through the float route with an auto-sized result: only its values are compared']
 
@@ -118,6 +118,7 @@ def run_cases(cases, res):
             if op == 'sum': mreq = [110, 0] + e_fmt(s, nw, nf) + [len(c['codes'])] + e_list(c['codes'])
             elif op == 'cumsum': mreq = [110, 1] + e_fmt(s, nw, nf) + [len(c['codes'])] + e_list(c['codes'])
             elif op == 'prod': mreq = [110, 2] + e_fmt(s, nw, nf) + [len(c['codes'])] + e_list(c['codes'])
+            elif op == 'cumprod' and nf >= 0: mreq = [110, 3] + e_fmt(s, nw, nf) + [len(c['codes'])] + e_list(c['codes'])
             elif op == 'dot': mreq = [111] + e_fmt(s, nw, nf) + e_fmt(*c['f2']) + e_list(c['codes']) + e_list(c['codes2'])
         if op == 'trace' and len(shape) == 2:
             # the model of trace: fxp_sum over the main diagonal, growth by the number of diagonal elements
